@@ -308,8 +308,10 @@ def exercise(ctx, prs, label, rng, budget, none_first=False, zero_first=False, w
             outcome = "ok"
         except (TypeError, ValueError) as e:
             outcome = "rejected:" + type(e).__name__
+            case["exception"] = str(e)[:200]
         except Exception as e:  # noqa
             outcome = "raised:" + type(e).__name__
+            case["exception"] = str(e)[:200]
         ctx.case(key=(p.kind, p.name, cls, outcome))
         ctx.count(f"assign-{cls}-{outcome.split(':')[0]}")
         after_self = reading(obj, p.name)
